@@ -76,6 +76,17 @@ def gen_lines(ctx):
             #  srvbw: block-wise enabled, the request is a GET that asks for the size of the representation (Size2: 0)
             L.append("srvbw udp %s %s %d" % (rng.choice(["con", "non"]), v, c))
             L.append("srvbw tcp non %s %d" % (v, c))
+    #  srvn: a handler that calls SetResponse several times (a result, then an error path; a default, then the real outcome):
+    #        every call is judged on its own, and the wire must carry the response of the last call that was not refused
+    nc = [69, 65, 68, 95, 132, 128, 160, 165, 0, 1, 224]
+    for _ in range(1200 if thorough else 160):
+        cs = [rng.choice(nc) if rng.random() < 0.85 else rng.randrange(256) for _ in range(rng.choice([2, 2, 2, 3, 4]))]
+        v = rng.choice(["-", "0", "2", "8", "16", "26", "10", "24", "18", str(rng.randrange(256))])
+        tr, rt = rng.choice([("udp", "con"), ("udp", "non"), ("tcp", "non")])
+        L.append("srvn %s %s %s %s" % (tr, rt, v, ",".join(map(str, cs))))
+    for v, cs in (("16", "69,160"), ("2", "160,69"), ("8", "132,69,132"), ("26", "69,132,160"), ("16", "69,69,160")):
+        for tr, rt in (("udp", "con"), ("udp", "non"), ("tcp", "non")):
+            L.append("srvn %s %s %s %s" % (tr, rt, v, cs))
     return L
 
 
